@@ -40,6 +40,18 @@ def _sk_clf(missing_label, classes, seed=0):
                              random_state=seed)
 
 
+def _tree_clf(missing_label, classes, seed=0):
+    """a classifier with exactly one-hot probabilities on pure leaves (certain
+    candidates) and split probabilities on duplicated points with conflicting
+    labels"""
+    from sklearn.tree import DecisionTreeClassifier
+
+    from skactiveml.classifier import SklearnClassifier
+
+    return SklearnClassifier(DecisionTreeClassifier(random_state=seed), classes=list(classes),
+                             missing_label=missing_label, random_state=seed)
+
+
 def _mlp_clf(missing_label, classes, seed=0):
     """a classifier that can return embeddings is only available with
     skorch/torch (absent here); strategies that want embeddings fall back to
@@ -93,7 +105,7 @@ def model_kwargs(entry, missing_label, classes, seed=0, variant=0):
     if m is None:
         return {}
     if m in ("clf", "clf_embed"):
-        return {"clf": (_clf, _sk_clf)[variant % 2](missing_label, classes, seed)}
+        return {"clf": (_clf, _sk_clf, _tree_clf)[variant % 3](missing_label, classes, seed)}
     if m == "clf_freq":
         return {"clf": _clf(missing_label, classes, seed)}
     if m == "reg":
